@@ -211,8 +211,8 @@ def main(tier, seed, replay=None):
     avoid = quarantined("C01") | quarantined("C02") | c01.RESTRICTIONS
     q13 = quarantined("C13")
     rng = random.Random(seed * 61 + 23)
-    nhosts = 14 if quick else 220
-    per_host = 16 if quick else 40
+    nhosts = 14 if quick else 150
+    per_host = 16 if quick else 30
     # hosts: generate a pool and keep the ones that add constructs in which a name is *used* in a new way (greedy feature cover)
     RELEVANT = ("decl.class", "model.nested_field", "assign.through_place", "place.list_elem_field", "place.nested_field", "model.field_default",
                 "model.ctor_uses_default", "model.ctor_reordered", "model.method_mut", "model.method_str", "model.method_getter", "enum.payload",
